@@ -35,6 +35,7 @@ const (
 	nIf     // [op, key, body]: run body if the key is present in the executing contract's storage
 	nCallT   // [op, token, body]: CALLT <token> with the single argument `body` (method token of another interpreter's `run`)
 	nNativeT // [op, token, args]: CALLT <token> with the arguments unpacked (method token of a native method)
+	nEdit    // [op, key, variant]: read the stored value (Get / Find iterator value), derive a byte value from it with an operation that might alias it, edit the result in place, drop it
 	nOps
 )
 
@@ -103,7 +104,7 @@ func buildInterp(ntok int, reward []any) interpCode {
 	a.jmp(opcode.JMPIFL, "done")
 	a.ops(opcode.LDARG0, opcode.LDLOC0, opcode.PICKITEM, opcode.STLOC1)
 	a.ops(opcode.LDLOC0, opcode.INC, opcode.STLOC0)
-	names := []string{"h_put", "h_del", "h_notify", "h_call", "h_tryc", "h_tryf", "h_trycf", "h_throw", "h_abort", "h_local", "h_native", "h_if", "h_callt", "h_nativet"}
+	names := []string{"h_put", "h_del", "h_notify", "h_call", "h_tryc", "h_tryf", "h_trycf", "h_throw", "h_abort", "h_local", "h_native", "h_if", "h_callt", "h_nativet", "h_edit"}
 	for i, n := range names {
 		ldNode()
 		a.pick(0)
@@ -243,6 +244,101 @@ func buildInterp(ntok int, reward []any) interpCode {
 		a.ops(opcode.CLEAR)
 		a.jmp(opcode.JMPL, "loop")
 	}
+
+	// a value obtained from storage -> a byte-producing operation that might alias it -> in-place edits of the
+	// result, which is then dropped: storage must not change (stored values are immutable)
+	a.label("h_edit")
+	ldNode()
+	a.pick(1)
+	a.syscall(interopnames.SystemStorageGetContext)
+	a.syscall(interopnames.SystemStorageGet)
+	a.ops(opcode.STLOC3)
+	ldNode()
+	a.pick(2)
+	a.int(10)
+	a.ops(opcode.NUMEQUAL)
+	a.jmp(opcode.JMPIFNOTL, "ed_have")
+	a.int(4) // FindValuesOnly
+	ldNode()
+	a.pick(1)
+	a.syscall(interopnames.SystemStorageGetContext)
+	a.syscall(interopnames.SystemStorageFind)
+	a.ops(opcode.DUP)
+	a.syscall(interopnames.SystemIteratorNext)
+	a.jmp(opcode.JMPIFL, "ed_itval")
+	a.ops(opcode.DROP)
+	a.jmp(opcode.JMPL, "loop")
+	a.label("ed_itval")
+	a.syscall(interopnames.SystemIteratorValue)
+	a.ops(opcode.STLOC3)
+	a.label("ed_have")
+	a.ops(opcode.LDLOC3, opcode.ISNULL)
+	a.jmp(opcode.JMPIFL, "loop")
+	const nEditVariants = 12
+	for k := 0; k < nEditVariants; k++ {
+		ldNode()
+		a.pick(2)
+		a.int(int64(k))
+		a.ops(opcode.NUMEQUAL)
+		a.jmp(opcode.JMPIFL, fmt.Sprintf("ed%d", k))
+	}
+	a.ops(opcode.ABORT)
+	toBuffer := func() { emit.Instruction(a.w.BinWriter, opcode.CONVERT, []byte{0x30}) }
+	size := func() { a.ops(opcode.LDLOC3, opcode.SIZE) }
+	for k := 0; k < nEditVariants; k++ {
+		a.label(fmt.Sprintf("ed%d", k))
+		switch k {
+		case 0, 10: // value ++ empty
+			a.ops(opcode.LDLOC3)
+			a.bytes([]byte{})
+			a.ops(opcode.CAT)
+		case 1: // empty ++ value
+			a.bytes([]byte{})
+			a.ops(opcode.LDLOC3, opcode.CAT)
+		case 2: // SUBSTR, full length
+			a.ops(opcode.LDLOC3, opcode.PUSH0)
+			size()
+			a.ops(opcode.SUBSTR)
+		case 3:
+			a.ops(opcode.LDLOC3)
+			size()
+			a.ops(opcode.LEFT)
+		case 4:
+			a.ops(opcode.LDLOC3)
+			size()
+			a.ops(opcode.RIGHT)
+		case 5:
+			a.ops(opcode.LDLOC3)
+			toBuffer()
+		case 6: // MEMCPY from the value into a new buffer
+			size()
+			a.ops(opcode.NEWBUFFER, opcode.DUP, opcode.PUSH0, opcode.LDLOC3, opcode.PUSH0)
+			size()
+			a.ops(opcode.MEMCPY)
+		case 7: // through an array
+			a.ops(opcode.LDLOC3, opcode.PUSH1, opcode.PACK, opcode.PUSH0, opcode.PICKITEM)
+			toBuffer()
+		case 8:
+			a.ops(opcode.LDLOC3)
+			a.bytes([]byte("z"))
+			a.ops(opcode.CAT)
+		case 9:
+			a.bytes([]byte("z"))
+			a.ops(opcode.LDLOC3, opcode.CAT)
+		case 11: // value ++ empty, then MEMCPY INTO the result
+			a.ops(opcode.LDLOC3)
+			a.bytes([]byte{})
+			a.ops(opcode.CAT, opcode.DUP, opcode.PUSH0)
+			a.bytes([]byte("q"))
+			a.ops(opcode.PUSH0, opcode.PUSH1, opcode.MEMCPY)
+		}
+		a.jmp(opcode.JMPL, "ed_apply")
+	}
+	a.label("ed_apply")
+	a.ops(opcode.DUP, opcode.PUSH0)
+	a.int(90)
+	a.ops(opcode.SETITEM, opcode.DUP, opcode.REVERSEITEMS, opcode.DROP)
+	a.jmp(opcode.JMPL, "loop")
 
 	// onNEP17Payment(from, amount, data)
 	offPay := a.pos()
